@@ -599,7 +599,7 @@ func judgeRun(gname string, o runOut, tree *faulttree.Tree, caseDesc func() stri
 
 func main() {
 	super.Main(world{}, super.Config{
-		QuickCases:       2500,
+		QuickCases:       30000,
 		ThoroughSeconds:  900,
 		CaseTimeout:      20e9,
 		MinimiseBudget:   1500,
